@@ -258,6 +258,30 @@ def detect(base, cur_inv, cur_txt):
                 if same_last:
                     paths.append((cands[0][1], m))
                     log.append('%s moved to %s (same name, signature and callees; the full path is mapped back)' % (m, cands[0][1]))
+    # 3b. a reference function that is still missing, in an impl where exactly one function went missing and exactly one appeared, with
+    #     the same number of parameters and the same return type (a parameter's type changed because a conversion step moved across
+    #     the call boundary): accepted when callers of the reference function now call the new one and nobody calls the old name
+    taken = set(n_ for n_, _ in paths) | set(ren.keys())
+    still_missing = [m for m in missing if not any(o_ == segs(m)[-1] for o_ in ren.values()) and not any(op_ == m for _, op_ in paths)]
+    for m in still_missing:
+        bm = b_fns[m]
+        if bm['kind'] != 'assoc' or bm.get('trait') or not bm.get('self_adt'):
+            continue
+        same_impl_m = [m_ for m_ in still_missing if b_fns[m_].get('self_adt') == bm['self_adt'] and not b_fns[m_].get('trait')]
+        same_impl_n = [n_ for n_ in new if c_fns[n_].get('self_adt') == bm['self_adt'] and not c_fns[n_].get('trait') and c_fns[n_]['kind'] == 'assoc'
+                       and segs(n_)[-1] not in taken and not any(segs(n_)[-1] == k_ for k_ in ren)]
+        if len(same_impl_m) != 1 or len(same_impl_n) != 1:
+            continue
+        n1 = same_impl_n[0]
+        sr = _seg_renames(m, n1)
+        if not sr or _sig_arity_ret(c_fns[n1]['sig']) != _sig_arity_ret(bm['sig']):
+            continue
+        lm_, ln_ = segs(m)[-1], segs(n1)[-1]
+        callers_b = set(d_ for d_, v_ in b_fns.items() if lm_ in v_['callees'])
+        callers_c = set(d_ for d_, v_ in c_fns.items() if ln_ in v_['callees'])
+        still_m = set(d_ for d_, v_ in c_fns.items() if lm_ in v_['callees'])
+        if callers_b and callers_b <= callers_c | set(_sub(d_, [(o_, n_) for n_, o_ in sr]) for d_ in callers_c) and not still_m:
+            accept(sr, 'function %s takes the place of %s: the only function of its impl that appeared while %s was the only one that went missing, same arity and return type, called from the same %d functions' % (n1, m, m, len(callers_b)))
     # a named tuple is only accepted if, with it, every function of the reference tree that mentions the tuple still has a counterpart
     # with exactly the reference signature (same path after renames)
     ok_tuples = []
@@ -278,6 +302,29 @@ def detect(base, cur_inv, cur_txt):
         else:
             log.append('not applied: struct %s as tuple %s: a reference function using the tuple has no counterpart with the reference signature' % (p_, tup_))
     return list(ren.items()), log, structured, paths, ok_tuples
+
+
+def _sig_arity_ret(sig):
+    """(number of parameters, return type text) of a printed fn signature"""
+    i = sig.find('fn(')
+    if i < 0:
+        return None
+    depth, j, commas, nonempty = 0, i + 3, 0, False
+    while j < len(sig):
+        c = sig[j]
+        if c in '(<[':
+            depth += 1
+        elif c in ')>]' and not (c == '>' and sig[j - 1] == '-'):
+            if depth == 0:
+                break
+            depth -= 1
+        elif c == ',' and depth == 0:
+            commas += 1
+        elif not c.isspace():
+            nonempty = True
+        j += 1
+    rest = sig[j + 1:].strip()
+    return ((commas + 1) if nonempty else 0, _nolt(rest[2:].strip()) if rest.startswith('->') else '()')
 
 
 def _nolt(t):
